@@ -239,7 +239,7 @@ pub fn check(tier: &str) -> Report {
     "reference = four state machines (live-observer list + stored history) of DESIGN.md Appendix A; permissive where the statement is silent (§6: plain/async subject with a subscriber arriving after the terminal; AsyncSubject observer that joined after the last push)".into(),
     "calls after the terminal other than subscribe/unsubscribe are not enumerated (not fixed by the statement)".into(),
   ];
-  let hs = Arc::new(histories(if th { 7 } else { 6 }, 3));
+  let hs = Arc::new(histories(if th { 9 } else { 7 }, 3));
   let next = AtomicUsize::new(0);
   let kinds = [SubjKind::Plain, SubjKind::Behavior, SubjKind::Replay, SubjKind::Async];
   let findings: Mutex<BTreeMap<String, (String, u64)>> = Mutex::new(BTreeMap::new());
